@@ -523,6 +523,8 @@ def growth_cases(quick):
         cases.append(("chain-switch-d%d" % d, chain(d, False, ctx="switch_case")))
         cases.append(("chain-switchmulti-d%d" % d, chain(d, False, ctx="switch_multi")))
         cases.append(("chain-ifelse-d%d" % d, chain(d, True, ctx="if_else_if")))
+        cases.append(("chain-ifboth-d%d-ret" % d, chain(d, True, ctx="if_both")))
+        cases.append(("chain-ifboth-d%d-void" % d, chain(d, False, ctx="if_both")))
         cases.append(("dagarg-d%d" % d, dag_arg(d)))
         # helpers that touch no resource at all (nothing to remember for a cache keyed on what a function uses)
         cases.append(("chain-pure-d%d-ret" % d, chain(d, True, pure=True)))
@@ -565,13 +567,23 @@ def growth_cases(quick):
             {"name": "level%d" % i, "ty": "f32", "default": " + ".join(["level%d * 0.5" % (i - 1)] * k)} for i in range(1, d)]
         O["entries"].append({"name": "main", "stage": "compute", "params": [], "wg": ["1"], "body": [{"k": "ovr", "o": "level%d" % (d - 1)}, {"k": "access", "g": "buf", "how": "load"}]})
         cases.append(("override-chain-d%d-k%d" % (d, k), O))
+    for d in (8, 20, 40):
+        t = {"k": "vec", "n": 4, "s": "f32"}
+        for _ in range(d):
+            t = {"k": "array", "n": 1, "e": t}
+        A = _base([])
+        A["structs"].append({"name": "Deep", "members": [{"name": "a", "ty": t}, {"name": "b", "ty": {"k": "scalar", "s": "f32"}}]})
+        A["globals"].append({"name": "deep", "space": "storage_r", "group": "0", "binding": "0", "ty": {"k": "struct", "name": "Deep"}})
+        A["entries"].append({"name": "main", "stage": "compute", "params": [], "wg": ["1"], "body": [{"k": "access", "g": "deep", "how": "addr"}]})
+        cases.append(("nested-array-d%d" % d, A))
     # many unrelated types declared before the tower (type handles beyond any small fixed-size set)
     for pad, l in [(70, 12), (70, 20), (130, 24), (300, 26)]:
         T = struct_tower(l)
         T["structs"] = [{"name": "Pad%d" % i, "members": [{"name": "p", "ty": {"k": "array", "n": i + 2, "e": {"k": "scalar", "s": "f32"}}}]} for i in range(pad)] + T["structs"]
         T["globals"].append({"name": "pads", "space": "storage_r", "group": "0", "binding": "7", "ty": {"k": "struct", "name": "Pad0"}})
         cases.append(("tower-padded%d-l%d" % (pad, l), T))
-    return [{"id": "grow-" + n, "family": "growth", "S": S, "opts": opts()} for n, S in cases]
+    return [{"id": "grow-" + n, "family": "growth", "S": S, "opts": opts(mv=("rust", "glam", "nalgebra")[i % 3] if ("tower" in n or "nested-array" in n) else "rust")} for i, (n, S) in enumerate(cases)] \
+        + [{"id": "grow-" + n + "-glam", "family": "growth", "S": S, "opts": opts(mv="glam", enc=True)} for n, S in cases if "nested-array" in n]
 
 
 # ------------------------------------------------------------------ C13 push constants
